@@ -215,6 +215,66 @@ def verdict_guards(ctx, body, vcalls):
                 out[node] = 'pos'
             else:
                 out[node] = 'other'
+    # flags: a bool local assigned in the verdict arms (`let ok = match v { Ok(b) => b, Err(e) => { ..; false } }`, `Ok(c) => !c`)
+    for bb, blk in enumerate(body.blocks):
+        t = blk['term']
+        if blk['cleanup'] or t['k'] != 'switch':
+            continue
+        local, neg = body._rd_chain_local(body.facts.operand(t['op']))
+        if local is None or len(body.defs.get(local, [])) < 2 or body.local_ty(local) != 'bool':
+            continue
+        contrib = []  # per definition: ('const', value, class of its block) | ('payload', inverted?)
+        ok = True
+        for d in body.defs[local]:
+            if d[0] != 'stmt':
+                ok = False
+                break
+            rv = d[3]
+            inv = False
+            src = None
+            if rv['k'] == 'use' and 'k' in rv['op']:
+                v = rv['op']['k'].get('int')
+                req = [out.get(('e', g.bb, g.k)) for g in body.edges_required_for(d[1])]
+                cls = 'neg' if any(c and c.startswith('neg') for c in req) else ('pos' if any(c == 'pos' for c in req) else None)
+                contrib.append(('const', v == '1', cls))
+                continue
+            if rv['k'] == 'use':
+                src = body.facts.operand(rv['op'])
+            elif rv['k'] == 'un' and rv['uop'] == 'Not':
+                src = body.facts.operand(rv['a'])
+                inv = True
+            if src is None:
+                ok = False
+                break
+            so = body.orig_operand(src)
+            if so and all(o.kind == 'call' and o.key in vb for o in so):
+                contrib.append(('payload', inv, None))
+            else:
+                ok = False
+                break
+        if not ok or not any(c[0] == 'payload' for c in contrib):
+            continue
+        arms = body.succ[bb]
+        listed = [lab[2] for _, lab in arms if lab[2] != 'otherwise']
+        for k, (_, lab) in enumerate(arms):
+            v = lab[2]
+            if v == 0 or (v == 'otherwise' and listed == [1]):
+                edge_truth = False
+            elif v == 1 or (v == 'otherwise' and listed == [0]):
+                edge_truth = True
+            else:
+                continue
+            flag_val = (not edge_truth) if neg else edge_truth
+            classes = set()
+            for c in contrib:
+                if c[0] == 'const':
+                    if c[1] == flag_val:
+                        classes.add(c[2])
+                else:
+                    payload = (not flag_val) if c[1] else flag_val  # value of the verdict payload (true = consistent)
+                    classes.add('pos' if payload else 'neg')
+            if len(classes) == 1 and None not in classes:
+                out[('e', bb, k)] = 'neg-false' if classes == {'neg'} else 'pos'
     return out
 
 
